@@ -14,7 +14,7 @@ mod c14_common;
 mod c14_model;
 
 use c14_common::*;
-use c14_model::{reference_sets, Conv, Kind};
+use c14_model::{reference_sets, Conv, Kind, Qual};
 use mcx::{catch, par_for, Ctx};
 use props::ccl::abstract_domain::AbstractLocation;
 use props::ccl::analysis::function_signature::compute_function_signatures;
@@ -89,6 +89,8 @@ fn slot(i: usize, p: &str) -> Slot {
     }
 }
 const QUICK_SLOTS: [usize; 14] = [0, 1, 2, 5, 7, 8, 10, 11, 13, 16, 20, 22, 23, 24];
+/// Alphabet of the 4-slot layer of the thorough tier.
+const THOROUGH_4SLOT: [usize; 18] = [0, 1, 2, 3, 5, 7, 8, 9, 10, 11, 13, 16, 19, 20, 22, 24, 26, 29];
 
 fn externs() -> Vec<ExternSymbol> {
     let a = |n: &str| arg_reg(n, 8);
@@ -153,8 +155,10 @@ fn skeleton_variants(s: u64) -> u64 {
 }
 const FRAME: u128 = 24;
 
+/// The subject function. Slots 0..2 are always present; slot 3 (thorough tier) sits on the
+/// block that is a plain forwarding block otherwise.
 fn fun_f(s: u64, variant: u64, slots: &[usize]) -> Term<Sub> {
-    let sl = |i: usize, n: &str| slot(slots[i], n);
+    let sl = |i: usize, n: &str| slot(slots.get(i).copied().unwrap_or(0), n);
     let pro = || vec![assign("instr_f_pro", r8("RSP"), sub_(e8("RSP"), cst(FRAME, 8)))];
     let c1 = cond(variant % N_CONDS);
     let br = |t: &str, to: &str| vec![j_branch(&format!("instr_{t}_j"), &format!("blk_{to}"))];
@@ -162,40 +166,50 @@ fn fun_f(s: u64, variant: u64, slots: &[usize]) -> Term<Sub> {
     let mut b: Vec<Term<Blk>> = Vec::new();
     match s {
         0 => {
+            // line
             b.extend(slot_blocks("a", sl(0, "a"), pro(), br("a", "b")));
             b.extend(slot_blocks("b", sl(1, "b"), vec![], br("b", "c")));
-            b.extend(slot_blocks("c", sl(2, "c"), vec![], br("c", "r")));
+            b.extend(slot_blocks("c", sl(2, "c"), vec![], br("c", "d")));
+            b.extend(slot_blocks("d", sl(3, "d"), vec![], br("d", "r")));
         }
         1 => {
+            // diamond
             b.extend(slot_blocks("a", sl(0, "a"), pro(), cb("a", c1, "b", "c")));
             b.extend(slot_blocks("b", sl(1, "b"), vec![], br("b", "d")));
-            b.push(blk("blk_c", vec![], br("c", "d")));
+            b.extend(slot_blocks("c", sl(3, "c"), vec![], br("c", "d")));
             b.extend(slot_blocks("d", sl(2, "d"), vec![], br("d", "r")));
         }
         2 => {
+            // loop: head b, body e
             b.extend(slot_blocks("a", sl(0, "a"), pro(), br("a", "b")));
-            b.extend(slot_blocks("b", sl(1, "b"), vec![], cb("b", c1, "b", "c")));
+            b.extend(slot_blocks("b", sl(1, "b"), vec![], cb("b", c1, "e", "c")));
+            b.extend(slot_blocks("e", sl(3, "e"), vec![], br("e", "b")));
             b.extend(slot_blocks("c", sl(2, "c"), vec![], br("c", "r")));
         }
         3 => {
+            // loop with two exits
             b.extend(slot_blocks("a", sl(0, "a"), pro(), br("a", "b")));
-            b.extend(slot_blocks("b", sl(1, "b"), vec![], cb("b", c1, "r", "c")));
+            b.extend(slot_blocks("b", sl(1, "b"), vec![], cb("b", c1, "e", "c")));
             b.extend(slot_blocks("c", sl(2, "c"), vec![], cb("c", reg("ZF", 1), "b", "r")));
+            b.extend(slot_blocks("e", sl(3, "e"), vec![], br("e", "r")));
         }
         4 => {
+            // nested if
             b.extend(slot_blocks("a", sl(0, "a"), pro(), cb("a", c1, "b", "d")));
             b.extend(slot_blocks("b", sl(1, "b"), vec![], cb("b", bin(BinOpType::IntEqual, e8("RAX"), cst(0, 8)), "c", "d")));
             b.extend(slot_blocks("c", sl(2, "c"), vec![], br("c", "d")));
-            b.push(blk("blk_d", vec![], br("d", "r")));
+            b.extend(slot_blocks("d", sl(3, "d"), vec![], br("d", "r")));
         }
         _ => {
+            // early end: dead end / indirect jump without known targets
             let end = match variant / N_CONDS {
                 0 => vec![],
-                1 => vec![j_branchind("instr_b_ij", e8("RDX"))],
-                _ => vec![j_branchind("instr_b_ij", e8("RAX"))],
+                1 => vec![j_branchind("instr_e_ij", e8("RDX"))],
+                _ => vec![j_branchind("instr_e_ij", e8("RAX"))],
             };
             b.extend(slot_blocks("a", sl(0, "a"), pro(), cb("a", c1, "b", "c")));
-            b.extend(slot_blocks("b", sl(1, "b"), vec![], end));
+            b.extend(slot_blocks("b", sl(1, "b"), vec![], br("b", "e")));
+            b.extend(slot_blocks("e", sl(3, "e"), vec![], end));
             b.extend(slot_blocks("c", sl(2, "c"), vec![], br("c", "r")));
         }
     }
@@ -328,17 +342,18 @@ fn check_program(ctx: &Ctx, label: &str, raw: &Project) {
             continue;
         }
         // one violation per (kind) class: a register is blamed on the kinds of read that demand it
-        let mut by_kind: BTreeMap<Kind, Vec<serde_json::Value>> = BTreeMap::new();
-        for ((ri, kind), w) in &r.reads {
+        let mut by_kind: BTreeMap<(Kind, Qual), Vec<serde_json::Value>> = BTreeMap::new();
+        for ((ri, kind, qual), w) in &r.reads {
             let name = &conv.params[*ri as usize];
             if missed.contains(&name) {
-                by_kind.entry(*kind).or_default().push(json!({"register": name, "read_at": w.at, "path_of_blocks": w.path}));
+                by_kind.entry((*kind, *qual)).or_default().push(json!({"register": name, "read_at": w.at, "path_of_blocks": w.path}));
             }
         }
         let _ = sub;
-        for (kind, witnesses) in by_kind {
+        for ((kind, qual), witnesses) in by_kind {
+            ctx.stat(&format!("violations: missed-parameter {}{}", kind.name(), qual.name()), 1);
             ctx.violation(
-                format!("missed-parameter {}", kind.name()),
+                format!("missed-parameter {}{}", kind.name(), qual.name()),
                 case(),
                 json!({"function": tid_str(tid), "missed": missed, "reference_set": demanded, "reported_register_parameters": reported,
                        "witnesses": witnesses, "signature": sig.to_json_compact(), "normalized_program": render(project)}),
@@ -360,33 +375,43 @@ fn main() {
     }
     let ctx = &ctx;
     let thorough = ctx.thorough();
-    let alphabet: Vec<usize> = if thorough { (0..N_SLOTS).collect() } else { QUICK_SLOTS.to_vec() };
-    let k = alphabet.len() as u64;
+    // layers: (slot alphabet, number of slots, skip cases whose 4th slot is empty)
+    let full: Vec<usize> = (0..N_SLOTS).collect();
+    let layers: Vec<(Vec<usize>, u32, bool)> = if thorough { vec![(full, 3, false), (THOROUGH_4SLOT.to_vec(), 4, true)] } else { vec![(QUICK_SLOTS.to_vec(), 3, false)] };
     let mut total = 0u64;
-    for s in 0..N_SKELETONS {
-        let nv = skeleton_variants(s);
-        let n = k.pow(3) * nv * N_CALLEES;
-        par_for(n, 256, |i| {
-            let slot_i = i % k.pow(3);
-            let variant = (i / k.pow(3)) % nv;
-            let callee = i / k.pow(3) / nv;
-            let sl: Vec<usize> = mcx::space::decode(slot_i, &[k, k, k]).into_iter().map(|x| alphabet[x]).collect();
-            if callee != 0 && !calls_g(&sl) {
-                return; // the callee variant is irrelevant: the program is the one with callee 0
-            }
-            let p = build(s, variant, &sl, callee);
-            let label = format!("skeleton={s} variant={variant} slots={sl:?} callee={callee}");
-            ctx.sample(|| json!({"label": label, "program": render(&p)}));
-            check_program(ctx, &label, &p);
-            ctx.add_states(1);
-        });
-        total += n;
+    for (alphabet, nslots, skip_empty_last) in &layers {
+        let k = alphabet.len() as u64;
+        let dims = vec![k; *nslots as usize];
+        for s in 0..N_SKELETONS {
+            let nv = skeleton_variants(s);
+            let ns = k.pow(*nslots);
+            let n = ns * nv * N_CALLEES;
+            par_for(n, 256, |i| {
+                let slot_i = i % ns;
+                let variant = (i / ns) % nv;
+                let callee = i / ns / nv;
+                let sl: Vec<usize> = mcx::space::decode(slot_i, &dims).into_iter().map(|x| alphabet[x]).collect();
+                if callee != 0 && !calls_g(&sl) {
+                    return; // the callee variant is irrelevant: the program is the one with callee 0
+                }
+                if *skip_empty_last && sl[3] == 0 {
+                    return; // identical to a 3-slot program of the first layer
+                }
+                let p = build(s, variant, &sl, callee);
+                let label = format!("skeleton={s} variant={variant} slots={sl:?} callee={callee}");
+                ctx.sample(|| json!({"label": label, "program": render(&p)}));
+                check_program(ctx, &label, &p);
+                ctx.add_states(1);
+            });
+            total += n;
+        }
     }
+    let k = layers[0].0.len();
     ctx.set("index_space", json!(total));
     ctx.set(
         "bounds",
         json!({"skeletons": "line, diamond, loop, loop with two exits, nested if, early end (dead end / indirect jump through RDX or RAX)",
-               "slots_per_program": 3, "slot_alphabet": k, "branch_conditions": N_CONDS, "callee_family": N_CALLEES,
+               "layers": layers.iter().map(|(a, n, _)| json!({"slot_alphabet": a.len(), "slots": n})).collect::<Vec<_>>(), "first_layer_alphabet": k, "branch_conditions": N_CONDS, "callee_family": N_CALLEES,
                "functions": "FUN_f (skeleton, 24-byte frame) and FUN_g (callee family); the callee dimension is only multiplied in when a slot calls FUN_g",
                "externs": "ext0(), ext1(RDI), ext2(RDI,RSI), strlen(RDI) [stubbed], memcpy(RDI,RSI,RDX) [stubbed], exit(RDI) [stubbed, no_return, call without return target], die(RSI) [no_return]"}),
     );
